@@ -174,12 +174,17 @@ func buildShiftMatchingPredicate(sw swamp.Swamp, beaconType swamp.BeaconType, fi
 
 	// Filter present — plan it.
 	plan := PlanFilter(filters)
+	// The candidate key set is computed here, before the engine takes the
+	// selection lock, so it can be stale by the time a treasure is tested:
+	// it is only a fast-reject. Every treasure that passes it is tested
+	// against the FULL filter (not just the plan's residual) on the live
+	// record under the selection lock, so a record patched out of the
+	// indexed condition in between is not claimed.
 	filterEval := filters
 	var keySet map[string]struct{}
 	if plan.Mode != PlanModeBypass {
 		candidates := collectBucketCandidates(sw, plan.Hints)
 		keySet = candidateKeySet(candidates)
-		filterEval = plan.Residual
 	}
 
 	if !hasTimeBounds {
